@@ -221,6 +221,14 @@ class SymList(ModelObj):
     def do_copy(self, I):
         return SymList(self.n, self.f, elem_sort=self.elem_sort)
 
+    def m_binop(self, I, op, other, inplace=False):
+        import ast
+        if isinstance(op, ast.Add):
+            o = I.to_symseq(other)
+            n0, f0, g = self.n, self.f, o.f
+            return SymList(z3.simplify(n0 + o.n), lambda k: ite_val(k < n0, f0(k), g(k - n0)), elem_sort=self.elem_sort)
+        raise Unsupported("list operator")
+
     def do_remove(self, I, x):
         bound = None
         for k in range(0, 4):
